@@ -10,6 +10,14 @@ PROPS = {
         "assumptions": ["default policy = onet.RequirePublicIP as wired in NewPacketHandler / defaultDialer"],
         "explanation": "exact characterisation theorem over all 2^32+2^128 addresses (both directions) against the CIDR list and guard structure regenerated from net/private_net.go; correspondence: real RequirePublicIP/IsPrivateAddress/net.IP predicates on all block boundaries in 4-byte, mapped and native form + random",
     },
+    "C17": {
+        "gen_keys": ["\0"],
+        "trusted_base": ["prometheus/client_golang CounterVec.Add sums float64 exactly for whole seconds; Go map iteration order is irrelevant (model uses an association list)",
+                         "the collectors' mutex makes startConnection/stopConnection/Collect atomic (C19)"],
+        "assumptions": ["clock is monotone; every close of a tunnel follows its open (the callers tcpConnMetrics/udpConnMetrics are modelled in TunnelTime.lower)",
+                        "time in whole seconds in the correspondence (float sums exact); the theorems are over integer ns"],
+        "explanation": "invariant theorem over all start/stop/tick/collect histories: reported + running period = true open time per (ip,key); exactness after every scrape; label-class totals are sums of pair values; correspondence: real prometheus collectors with stubbed clock, gathered counters after every scrape",
+    },
     "C07": {
         "gen_keys": ["MaxCapacity", "replay"],
         "trusted_base": ["Go map of uint32 modelled as duplicate-free list; sync.Mutex makes Add/Resize atomic"],
